@@ -259,6 +259,9 @@ pub fn synthetic_history(rng: &mut Rng) -> Vec<Op> {
         })
         .collect();
     let n = rng.range(1, 400);
+    // mostly small depths with many ties; one history in five uses the whole range of the
+    // depth byte, with the values around powers of two that a packed representation may lose
+    let wide = rng.chance(1, 5);
     let max_depth = rng.range(0, 4) as u8;
     // one history in three draws its scores from a handful of values: equal scores with
     // other bounds and depths on one key (what fail-hard window edges produce in a search)
@@ -281,7 +284,7 @@ pub fn synthetic_history(rng: &mut Rng) -> Vec<Op> {
                         _ => rng.range(0, 4000) as i32 - 2000,
                     },
                     mv: if rng.chance(1, 4) { None } else { Some([rng.below(64) as u8, rng.below(64) as u8, rng.below(6) as u8, rng.below(5) as u8]) },
-                    depth: rng.range(0, max_depth as u64) as u8,
+                    depth: if wide { *rng.pick(&[0u8, 1, 2, 31, 32, 62, 63, 64, 65, 127, 128, 254, 255]) } else { rng.range(0, max_depth as u64) as u8 },
                     bound: rng.below(3) as u8,
                 }
             }
@@ -488,6 +491,94 @@ pub fn run_huge(rng: &mut Rng, n_keys: u64) -> (Option<(String, String)>, Counte
     }
 }
 
+/// The in-situ audit through the text protocol: `position`/`go depth` commands on one engine
+/// process with `setoption name Hash value N` lines in between (ignored by an engine without
+/// that option; an engine that has it must still return only what was last accepted for a
+/// key). Scenario form: {"uci_insitu": {"key_seed", "lines"}}.
+pub fn run_insitu_uci(key_seed: u64, lines: &[String]) -> (Option<(String, String)>, Counters, u64) {
+    use crate::usession::StepSession;
+    let mut probes = Counters::default();
+    let mut st = crate::simworld::SimState::new(key_seed, 0);
+    st.ev(&format!("cfg c15 uci_insitu key_seed={}", key_seed));
+    st.record_tt_traffic = true;
+    st.tt_traffic_cap = 600_000;
+    st.max_nodes_per_search = 300_000;
+    let (mut sess, o) = StepSession::start(st);
+    if o != crate::simworld::Outcome::Returned {
+        return (Some(("crash".into(), format!("engine start: {:?}", o))), probes, 0);
+    }
+    let mut last: HashMap<u64, Seen> = HashMap::new();
+    let mut consumed = 0usize;
+    let mut viol = None;
+    let view = |v: &engine::verif_seam::EntryView| ModelEntry { eval: v.1, mv: v.2, depth: v.3, bound: v.4 };
+    'lines: for (li, line) in lines.iter().enumerate() {
+        let o = sess.cmd(line);
+        match o {
+            crate::simworld::Outcome::Returned => {}
+            crate::simworld::Outcome::Aborted(_) => {
+                probes.add("insitu_inconclusive_step_cap", 1);
+                break;
+            }
+            o => {
+                viol = Some(("crash".to_string(), format!("'{}': {:?}", line, o)));
+                break;
+            }
+        }
+        if line == "ucinewgame" {
+            // a new engine state: what the old table held is gone by definition
+            last.clear();
+        }
+        let events: Vec<Event> = {
+            let st = sess.proc_.st.borrow();
+            let ev = st.tt_traffic[consumed..].to_vec();
+            consumed = st.tt_traffic.len();
+            ev
+        };
+        let mut pending: Option<ModelEntry> = None;
+        for e in &events {
+            match e {
+                Event::TtStore { eval, mv, depth, bound, .. } => pending = Some(ModelEntry { eval: *eval, mv: *mv, depth: *depth, bound: *bound }),
+                Event::TtStoreEffect { key, before, after } => {
+                    let Some(new) = pending.take() else { continue };
+                    let b: Seen = before.as_ref().map(view);
+                    let a: Seen = after.as_ref().map(view);
+                    if let Some(v) = judge_lookup(*key, last.get(key), &b, &mut probes).or_else(|| judge_store(*key, &b, &new, &a, &mut probes)) {
+                        viol = Some((v.0, format!("line {} '{}': {}", li, line, v.1)));
+                        break 'lines;
+                    }
+                    last.insert(*key, a);
+                    probes.add("insitu_stores_judged", 1);
+                }
+                _ => {}
+            }
+        }
+    }
+    let h = sess.proc_.st.borrow().log_hash;
+    (viol, probes, h)
+}
+
+pub fn gen_insitu_uci(rng: &mut Rng) -> (u64, Vec<String>) {
+    let p = sample_position(rng);
+    let fen = fen_for_search(&p);
+    let maxd = if p.piece_count() <= 10 { 4 } else { 3 };
+    let sizes = [1u64, 2, 4, 16, 64];
+    let a = *rng.pick(&sizes);
+    let b = *rng.pick(&sizes);
+    let mut lines = vec![format!("position fen {}", fen)];
+    for k in 0..rng.range(3, 6) {
+        // sizes alternate a, b, a, ... so that an earlier size comes back
+        if rng.chance(2, 3) {
+            lines.push(format!("setoption name Hash value {}", if k % 2 == 0 { a } else { b }));
+        }
+        lines.push(format!("go depth {}", rng.range(1, maxd)));
+        if rng.chance(1, 8) {
+            lines.push("ucinewgame".to_string());
+            lines.push(format!("position fen {}", fen));
+        }
+    }
+    (rng.next_u64(), lines)
+}
+
 pub fn gen_insitu(rng: &mut Rng) -> Insitu {
     let p = if rng.chance(1, 4) {
         // positions with mates and stalemates inside the horizon: mate scores get stored
@@ -526,6 +617,14 @@ fn scenario_json(ops: &[Op], origin: &str) -> Value {
 }
 
 pub fn replay_value(v: &Value) -> Vec<Violation> {
+    if let Some(u) = v.get("uci_insitu") {
+        let lines: Vec<String> = u["lines"].as_array().map(|a| a.iter().map(|x| x.as_str().unwrap_or("").to_string()).collect()).unwrap_or_default();
+        let (viol, _, h) = run_insitu_uci(u["key_seed"].as_u64().unwrap_or(0), &lines);
+        return viol
+            .into_iter()
+            .map(|(class, detail)| Violation { prop: "C15".into(), class, detail, scenario: v.clone(), sim_index: 0, sim_seed: 0, log_hash: h })
+            .collect();
+    }
     if let Some(h) = v.get("huge") {
         let n = h["keys"].as_u64().unwrap_or(0);
         let seed = h["rng_seed"].as_u64().unwrap_or(0);
@@ -563,6 +662,16 @@ pub fn replay_value(v: &Value) -> Vec<Violation> {
 pub fn shrink_value(v: &Value) -> Vec<Value> {
     if v.get("huge").is_some() {
         return vec![];
+    }
+    if let Some(u) = v.get("uci_insitu") {
+        let lines: Vec<String> = u["lines"].as_array().map(|a| a.iter().map(|x| x.as_str().unwrap_or("").to_string()).collect()).unwrap_or_default();
+        let mut out = vec![];
+        for i in 1..lines.len() {
+            let mut l = lines.clone();
+            l.remove(i);
+            out.push(json!({"origin": "uci_insitu", "uci_insitu": {"key_seed": u["key_seed"], "lines": l}}));
+        }
+        return out;
     }
     if let Some(sc) = Insitu::from_json(v) {
         let mut out = vec![];
@@ -664,6 +773,20 @@ pub fn run(ctx: &Ctx) -> i32 {
             }
             return res;
         }
+        if i % 12 == 7 {
+            let (ks, lines) = gen_insitu_uci(&mut rng);
+            let (viol, probes, h) = run_insitu_uci(ks, &lines);
+            res.evaluations = 1;
+            res.probes.merge(&probes);
+            res.probes.add("insitu_sessions_through_uci_with_setoption", 1);
+            res.log_hash = h;
+            let sc = json!({"origin": "uci_insitu", "uci_insitu": {"key_seed": ks, "lines": lines}});
+            res.distinct.push(hash_str(&sc.to_string()));
+            if let Some((class, detail)) = viol {
+                res.violations.push(Violation { prop: "C15".into(), class, detail, scenario: sc, sim_index: i, sim_seed: seed, log_hash: h });
+            }
+            return res;
+        }
         if i % 6 == 1 {
             let sc = gen_insitu(&mut rng);
             let (viol, probes, h) = run_insitu(&sc);
@@ -744,7 +867,7 @@ pub fn run(ctx: &Ctx) -> i32 {
     });
     let ev = Evidence {
         level: "exploration",
-        rule: "Four kinds of history. Huge (one per quick batch, more in thorough): a fresh table filled with 0.07-4.3 million distinct keys, then 20 000 bracketed stores (shallower, equal, deeper) and lookups on cached keys. In-situ (one sixth): 2-5 searches on ONE engine without reset (same position at other depths, a successor whose tree overlaps, clock-interrupted searches, refused stores); every store the searcher makes is judged by what the engine's own table shows for that key right before and right after the call (a shallower result must not replace a deeper one, an equal or deeper one must, nothing else may appear), and after each search the table may hold nothing but what those stores left. Replayed: histories of store/retrieve calls, one third recorded from simulated searches on one table (a clock-interrupted search followed by two completed ones, optionally with refused stores), the rest synthetic over 1-6 keys (some differing only in their high bits) with depths 0..4, many ties and scores that include mate values and window edges. Each history is replayed call by call on a fresh real TranspositionTable, every store bracketed by a lookup of its key; a lookup must show nothing or exactly the data last seen accepted for that key, and each store must obey the replacement rule. A table that forgets entries is tolerated (counted in entries_lost_*), as the property allows a lookup to return nothing. A case = a history with at least one store and one retrieve; distinct by content hash.".into(),
+        rule: "Four kinds of history. Huge (one per quick batch, more in thorough): a fresh table filled with 0.07-4.3 million distinct keys, then 20 000 bracketed stores (shallower, equal, deeper) and lookups on cached keys. In-situ through the protocol (one twelfth): position / go depth commands on one engine process with `setoption name Hash value N` lines in between (sizes alternating, so that an earlier size comes back), every store judged as below. In-situ (one sixth): 2-5 searches on ONE engine without reset (same position at other depths, a successor whose tree overlaps, clock-interrupted searches, refused stores); every store the searcher makes is judged by what the engine's own table shows for that key right before and right after the call (a shallower result must not replace a deeper one, an equal or deeper one must, nothing else may appear), and after each search the table may hold nothing but what those stores left. Replayed: histories of store/retrieve calls, one third recorded from simulated searches on one table (a clock-interrupted search followed by two completed ones, optionally with refused stores), the rest synthetic over 1-6 keys (some differing only in their high bits) with depths 0..4 (one history in five over the whole depth byte: 31, 32, 63, 64, 127, 128, 255, ...), many ties and scores that include mate values and window edges. Each history is replayed call by call on a fresh real TranspositionTable, every store bracketed by a lookup of its key; a lookup must show nothing or exactly the data last seen accepted for that key, and each store must obey the replacement rule. A table that forgets entries is tolerated (counted in entries_lost_*), as the property allows a lookup to return nothing. A case = a history with at least one store and one retrieve; distinct by content hash.".into(),
         extra: serde_json::Map::new(),
         assumptions: vec![
             "the table is a deterministic function of its call sequence, so replaying recorded calls is equivalent to observing returns inside the search; the in-situ audit covers what the engine does to its table between calls (per-search housekeeping)".into(),
